@@ -68,6 +68,9 @@ class NumpyEncoder(json.JSONEncoder):
             return data.tolist()
         if isinstance(data, list):
             return np.array(data).tolist()
+        #numpy scalars (ex. integer temperatures taken out of an array) are not handled by the json module either
+        if isinstance(data, np.generic):
+            return data.item()
         return super().default(data)
 
 class SurrogateKernel(ABC):
